@@ -444,6 +444,9 @@ def run(ctx):
     rules.append(c11.r11_3(prog, load_tables("c11"), rid="R10.6", where="libasn1fix/", floor=60))
     rules.append(r10_7(prog, tab))
     rules.append(r10_8(prog, tab))
+    # R10.9: asn1c terminates: exact rule over every loop of the compiler
+    from . import termination
+    rules.append(termination.rule_for(prog, "R10.9", "the compiler (parser actions, fixer, printer, code generator)", set(prog.funcs.keys()), 250))
     return rules
 
 
